@@ -189,6 +189,20 @@ def wl_sequence(ctx, rng, i):
             ers = [ER(**e) for e in d["external_references"]]
             kw2 = dict(kw, external_references=ers)
             G.call("construct:with-embedded-objects", lambda: cls(allow_custom=True, **kw2), kwargs=kw2, embedded=ers)
+        # types declared with extension_name=: their own extension entry joins the extensions the caller gives -- in the object, not in
+        # the caller's dictionary
+        if ver == "2.1" and rnd % 2 == 0 and t in ("identity", "file", "campaign", "domain-name"):
+            from ..gen import custom as gcustom
+            reg = gcustom.ensure_registered()
+            other_ext = {"extension-definition--5b3b0b3c-0a4e-4f0f-9c57-0d7f7a1b2cfd": {"extension_type": "property-extension", "rank": 1, "notes": ["a", {"k": "v"}]}}
+            for label, ocls, okw in (("gadget", reg[("2.1", "gadget")], {"name": "g", "extensions": other_ext}), ("probe", reg[("2.1", "probe")], {"address": "a", "extensions": other_ext})):
+                made_own = G.call("construct:own-extension-type(%s)" % label, lambda: ocls(**okw), kwargs=okw)
+                content = dict(json.loads(made_own.serialize()), extensions=json.loads(json.dumps(other_ext))) if made_own is not None else None
+                if content is not None:
+                    G.call("parse:own-extension-type(%s)" % label, lambda: stix2.parse(content), data=content)
+                    if label == "gadget":
+                        newext = json.loads(json.dumps(other_ext))
+                        G.call("version:new_version(extensions=...) of own-extension-type", lambda: made_own.new_version(extensions=newext), changes=newext)
         # observables
         if t == "observed-data" and isinstance(d.get("objects"), dict):
             for k, sco in d["objects"].items():
